@@ -873,8 +873,10 @@ def loop_source(body, next_call):
 
 
 def const_str(t):
-    """string value of a &str literal node, else None"""
+    """string value of a &str literal node (or of `String::new()`), else None"""
     import re as _re
+    if isinstance(t, tuple) and t and t[0] == 'call' and not t[2] and t[1].endswith('String::new'):
+        return ''
     if isinstance(t, tuple) and t and t[0] == 'const':
         m = _re.match(r'^(?:const )?"(.*)"$', t[1], _re.S)
         if m:
